@@ -250,7 +250,28 @@ mod tmap {
         for _ in 0..n {
             let k = keys[rng.below(keys.len())].to_string();
             next += 1;
-            match rng.below(12) {
+            match rng.below(14) {
+                12 => {
+                    // several entries at once, not in key order; existing keys keep their place
+                    let m = 2 + rng.below(4);
+                    let batch: Vec<(String, Value)> = (0..m).map(|j| (keys[rng.below(keys.len())].to_string(), Value::Integer(next * 100 + j as i64))).collect();
+                    for (k, v) in &batch {
+                        let v = v.as_integer().unwrap();
+                        match model.iter_mut().find(|e| e.0 == *k) {
+                            Some(e) => e.1 = v,
+                            None => model.push((k.clone(), v)),
+                        }
+                    }
+                    out.push_str(&format!("extend({:?});", batch.iter().map(|e| e.0.as_str()).collect::<Vec<_>>()));
+                    t.extend(batch);
+                }
+                13 => {
+                    // the same content collected afresh, the entries offered in reverse insertion
+                    // order: an insertion-ordered table now iterates the other way round
+                    model.reverse();
+                    t = model.iter().map(|(k, v)| (k.clone(), Value::Integer(*v))).collect();
+                    out.push_str("recollect-reversed;");
+                }
                 0 | 1 | 2 => {
                     let r = t.insert(k.clone(), Value::Integer(next));
                     out.push_str(&format!("insert({k})={r:?};"));
